@@ -106,6 +106,7 @@ int main(int argc, char** argv) {
     if (line.empty()) continue;
     ++x; if (x < from || x >= to) continue;
     vrt::ev("{\"e\":\"Reset\",\"x\":%ld}", x);
+    vrt::log_flush();                       // a death in this execution must be attributed to it (UBSan/abort do not flush)
     std::fprintf(stderr, "@@X %ld\n", x);
     heapacct::n = 0; heapacct::overflow = 0; heapacct::on = true;
     size_t live = 0, bad = 0; int root = 0; std::string rec;
@@ -129,7 +130,7 @@ int main(int argc, char** argv) {
     std::fprintf(out, "%s\n", rec.c_str());
     std::fprintf(out, "{\"x\":%ld,\"heap\":%d}\n", x, heap);
     ++ran;
-    if ((ran & 255) == 0) std::fflush(out);
+    std::fflush(out);
   }
   std::fclose(out);
   vrt::log_close();
